@@ -38,6 +38,11 @@ fn main() {
         engines::ext::debug_schedule(&args[1..]);
         return;
     }
+    if id == "fuzz-stats" {
+        // vcheck fuzz-stats <corpus dir> <evidence file> <executions> <findings>
+        engines::fuzzing::corpus_stats(&args[1], &args[2], args[3].parse().unwrap_or(0), args[4].parse().unwrap_or(0));
+        return;
+    }
     if id == "dbg-e2e" {
         engines::e2e::debug_case(&args[1]);
         return;
